@@ -316,7 +316,7 @@ func siblingUnits(u *refUnits) (*refUnits, *schema.UnitsDefinition) {
 	sib := &refUnits{label: u.label + "-sibling", base: u.base}
 	mm := map[int64]*schema.UnitDefinition{}
 	for _, m := range u.mults {
-		if m.mult > (1<<61) {
+		if m.mult > (1 << 61) {
 			return nil, nil
 		}
 		m2 := refUnit{2*m.mult + 1, m.names}
